@@ -123,17 +123,17 @@ def rule_value_roundtrip(ck, facts):
                         ck.bad(R, "scalar-dec|%s|%d" % (w, i), "to_value transforms payload %d of FfiValue::%s (%s)" % (i, w, show(pe)), dec[0].where())
 
 
-def rule_type_serde(ck, facts):
-    R = "C20.type-serde"
-    ck.rule(R, "hand-written serde of Type: the (index, name) constants given to serialize_*_variant equal the ordinal and name of the matching field-identifier variant read by the deserializer, whose arm constructs the same Type variant; indices are unique")
+def rule_type_serde(ck, facts, R="C20.type-serde", ENUM=None, self_suffix="types::Type", module_mark="types::serde_impl", label="Type", floor=12):
+    ENUM = ENUM or roles.TYPE
+    ck.rule(R, "hand-written serde of %s: the (index, name) constants given to serialize_*_variant equal the ordinal and name of the matching field-identifier variant read by the deserializer, whose arm constructs the same %s variant; indices are unique" % (label, label))
     lang = facts.crate(roles.LANG)
-    ser = [f for f in lang.fns if f.d.get("trait", "").endswith("Serialize") and f.d.get("self_ty", "").endswith("types::Type") and f.short.endswith("::serialize")]
-    ck.require(R, len(ser) == 1, "anchor|Type::serialize", "impl Serialize for Type not found")
+    ser = [f for f in lang.fns if f.d.get("trait", "").endswith("Serialize") and f.d.get("self_ty", "").endswith(self_suffix) and f.short.endswith("::serialize") and module_mark in f.path]
+    ck.require(R, len(ser) == 1, "anchor|%s::serialize" % label, "impl Serialize for %s not found" % label)
     if len(ser) != 1:
         return
     f = ser[0]
-    cov = cover.coverage(facts, f, roles.TYPE)
-    ck.require(R, cov is not None and not cov.catchall, "serialize|no-catchall", "Type::serialize has a catch-all arm", f.where())
+    cov = cover.coverage(facts, f, ENUM)
+    ck.require(R, cov is not None and not cov.catchall, "serialize|no-catchall", "%s::serialize has a catch-all arm" % label, f.where())
     if cov is None:
         return
     di = DefIndex(f)
@@ -164,28 +164,28 @@ def rule_type_serde(ck, facts):
         if found:
             table[v] = found
     # the field-identifier enum of the deserializer
-    fields = [a for p, a in lang.adts.items() if p.endswith("::Field") and "types::serde_impl" in p and len(a["variants"]) >= 10]
-    ck.require(R, len(fields) == 1, "anchor|Field", "field-identifier enum of Type's deserializer not found")
-    ck.floor(R, "serialised_type_variants", len(table), 12)
+    fields = [a for p, a in lang.adts.items() if p.endswith("::Field") and module_mark in p and len(a["variants"]) >= 8]
+    ck.require(R, len(fields) == 1, "anchor|Field", "field-identifier enum of %s's deserializer not found" % label)
+    ck.floor(R, "serialised_%s_variants" % label.lower(), len(table), floor)
     if len(fields) != 1:
         return
     order = [v["n"] for v in fields[0]["variants"]]
     seen_idx = {}
     for v, (idx, name) in sorted(table.items()):
         if name != v:
-            ck.bad(R, "name|%s" % v, "Type::%s is serialised under the variant name %r" % (v, name), f.where())
+            ck.bad(R, "name|%s" % v, "%s::%s is serialised under the variant name %r" % (label, v, name), f.where())
         else:
             ck.ok(R, "name|%s" % v)
         if idx is None or idx >= len(order) or order[idx] != v:
-            ck.bad(R, "index|%s" % v, "Type::%s is serialised with variant index %s but the deserializer's identifier #%s is %s: it decodes as another type" % (v, idx, idx, order[idx] if idx is not None and idx < len(order) else "out of range"), f.where())
+            ck.bad(R, "index|%s" % v, "%s::%s is serialised with variant index %s but the deserializer's identifier #%s is %s: it decodes as another variant" % (label, v, idx, idx, order[idx] if idx is not None and idx < len(order) else "out of range"), f.where())
         else:
             ck.ok(R, "index|%s" % v, {"variant": v, "index": idx})
         if idx in seen_idx:
             ck.bad(R, "index-dup|%s" % idx, "variant index %s is used for both %s and %s" % (idx, seen_idx[idx], v), f.where())
         seen_idx[idx] = v
     # deserializer arms: Field::X constructs Type::X
-    vis = [g for g in lang.fns if "types::serde_impl" in g.path and g.short.endswith("::visit_enum")]
-    ck.require(R, len(vis) >= 1, "anchor|visit_enum", "visit_enum of Type's deserializer not found")
+    vis = [g for g in lang.fns if module_mark in g.path and g.short.endswith("::visit_enum")]
+    ck.require(R, len(vis) >= 1, "anchor|visit_enum", "visit_enum of %s's deserializer not found" % label)
     for g in vis:
         fcov = cover.coverage(facts, g, fields[0]["p"])
         if fcov is None:
@@ -198,18 +198,19 @@ def rule_type_serde(ck, facts):
             built = set()
             for b in region:
                 for s in g.stmts(b):
-                    if s[KIND] == "a" and s[5][0] == "agg" and s[5][1][0] == "adt" and s[5][1][1] == roles.TYPE:
+                    if s[KIND] == "a" and s[5][0] == "agg" and s[5][1][0] == "adt" and s[5][1][1] == ENUM:
                         built.add(s[5][1][3])
             if built == {v}:
                 ck.ok(R, "decode|%s" % v, {"identifier": v, "constructs": v})
             else:
-                ck.bad(R, "decode|%s" % v, "deserializer arm for identifier %s constructs Type::%s" % (v, sorted(built)), g.where())
+                ck.bad(R, "decode|%s" % v, "deserializer arm for identifier %s constructs %s::%s" % (v, label, sorted(built)), g.where())
     # refused variants = those whose arm returns Err
     refused = [v for v in cov.names if v not in table]
-    ck.note("Type variants refused by the serializer: %s" % sorted(refused))
+    ck.note("%s variants refused by the serializer: %s" % (label, sorted(refused)))
 
 
 def run(ck, facts, tier):
     rule_value_roundtrip(ck, facts)
     rule_type_serde(ck, facts)
+    rule_type_serde(ck, facts, R="C20.value-serde", ENUM=VALUE, self_suffix="interpreter::Value", module_mark="interpreter::serde_impl", label="Value", floor=9)
     ck.not_decided("byte-level behaviour of bincode (NaN payload bits, -0.0), and self-describing formats where `rename_all = lowercase` identifiers would not match the capitalised names")
